@@ -68,6 +68,16 @@ CHECKS['C20'] = dict(
     text='Proved for every list of task trees: the structure has exactly one class block per task type reachable through parameters at any depth (C20_types), an arrow (A,p,B) exactly when some reachable task of type A holds a B task inside parameter p, once per block, flagged "many" exactly when in some such task p is not itself a task (C20_arrows_and_many); the work list is exactly the reachable tasks; determinism is by construction. The rendering to Mermaid text (format_type, field listing, run signature) is not modelled: the monitor parses the real diagram text back and checks blocks, parameters, run lines and arrows.',
     design='6/C20', technique='Coq proof over worklist traversal and association-list updates + differential correspondence of TaskStructure.build',
     note='Theorems are about Model/Diagram.v over Model/Values.v task trees. Tie: correspondence of TaskStructure.build (dict contents and insertion order) with Diagram.build on generated graphs; text rendering checked by parsing. Print Assumptions: closed.')
+CHECKS['C16'] = dict(
+    text='Configuration theorems: with the Process constructor and the filter_context call sites read from the current source, every backend runs tasks where it promises whatever the platform default start method (C16_start_method; refuted for the module-level constructor: C16_module_default_refuted), run() sees the task\'s own filter_context of the Lab context under every backend (C16_context), and key/stored entry do not take the context (C16_context_not_in_key). PARTIAL by nature: that a forked child inherits the caller\'s memory and a spawned interpreter shares none is multiprocessing/OS behaviour; the check samples it on real runs (execution records: pid, parent pid, thread, a module global mutated by the parent after import, context seen) over backends x worker counts x context filters and compares keys/stored metadata across contexts and backends.',
+    design='6/C16', technique='Coq configuration theorems over extracted call sites + execution-record sampling on real backends',
+    note='Model/Env.v is deliberately thin (which constructor is called with which data); Gen/SrcParams.v extracts the constructor expression in _start_processes and the filter_context call sites of the three runners. Trusted/partial: multiprocessing start methods, OS process isolation. Print Assumptions: closed.')
+SCHED_L2 = ' Worker-process level: Model/Exec.v (ProcessExecutor as a state machine with finishing/exiting/killed workers) is compared with the real ProcessExecutor driven over gated forked workers (release or SIGKILL scripted before each wait).'
+CHECKS['C04']['text'] += ' Proved for every sequence of submit/wait/cancel/stop with any completions/exits/kills in between: registered worker processes <= max_workers (C04_worker_limit, start policy extracted).'
+CHECKS['C05']['text'] += ' Proved: after every submit and wait no future is pending while a worker slot is free (C05_rest_workers_full).'
+CHECKS['C11']['text'] += ' Proved: a worker dead at the start of wait() has a finished future (TaskDiedError unless its result was queued) and no slot when it returns (C11_dead_detected, under the executor invariant running_not_done which is checked on the runs).'
+for _k in ('C04', 'C05', 'C11', 'C10'):
+    CHECKS[_k]['note'] = CHECKS[_k]['note'] + SCHED_L2
 NOT_YET = {}
 
 
